@@ -110,6 +110,8 @@ class Program:
 
     def closure_body(self, ty):
         ty = ty.strip()
+        if '} as ' in ty:
+            ty = ty[:ty.index('} as ') + 1]       # a capture-less closure coerced to a fn pointer, printed with its cast
         b = self.by_self1.get(ty)
         if b is None and ty.startswith('{closure@'):
             b = self.by_self1.get('{async closure@' + ty[len('{closure@'):])     # aggregates of async closures are printed as plain closures
